@@ -163,6 +163,11 @@ partial def showVal : Val → String
     s!"m {c} {if ow then 1 else 0} {toHex unk} {cur.length}" ++ String.join (cur.map fun x => " " ++ showOptNat x)
       ++ s!" {sl.length}" ++ String.join (sl.map fun x => " " ++ showVal x)
 
+/-- `betterproto.serialized_on_wire(m)` (after the D46 repair): the flag, or any field holding a
+    non-default value (`bool(m)`: content set through nested attribute access / in-place mutation) -/
+def sowObs (S : Schema) (c : Nat) (sl : List Val) (ow : Bool) : Bool :=
+  ow || !slotsEqFresh S (fieldsOf S c) sl
+
 /-- what the public API shows of a message: per field `is_set` and the attribute read
     (AE = AttributeError, defaults materialised), `serialized_on_wire`, the selected
     member of each group; nested messages likewise.  Unknown fields are not shown
@@ -180,7 +185,7 @@ partial def obsVal (S : Schema) : Val → String
           | .ph, .msg _ => s!" [{setBit} fresh]"     -- an unset sub-message: not expanded (recursive types)
           | _, _ => s!" [{setBit} {obsVal S (materialize S f v)}]"
       | _, _ => " [?]"
-    s!"m {c} {if ow then 1 else 0} {cur.length}" ++ String.join (cur.map fun x => " " ++ showOptNat x)
+    s!"m {c} {if sowObs S c sl ow then 1 else 0} {cur.length}" ++ String.join (cur.map fun x => " " ++ showOptNat x)
       ++ s!" {sl.length}" ++ String.join items
   | .list xs => s!"l {xs.length}" ++ String.join (xs.map fun x => " " ++ obsVal S x)
   | .dict ks vs => s!"D {ks.length}" ++ String.join ((ks.zip vs).map fun (k, v) => " " ++ obsVal S k ++ " " ++ obsVal S v)
@@ -204,7 +209,7 @@ partial def obsPVal (S : Schema) : Val → String
             else s!" [{obsPVal S (.msg c' sl' ow' u' cur')}]"
           | v' => s!" [{obsPVal S v'}]"
       | _, _ => " [?]"
-    s!"m {c} {if ow then 1 else 0} {cur.length}" ++ String.join (cur.map fun x => " " ++ showOptNat x)
+    s!"m {c} {if sowObs S c sl ow then 1 else 0} {cur.length}" ++ String.join (cur.map fun x => " " ++ showOptNat x)
       ++ s!" {sl.length}" ++ String.join items
   | .list xs => s!"l {xs.length}" ++ String.join (xs.map fun x => " " ++ obsPVal S x)
   | .dict ks vs => s!"D {ks.length}" ++ String.join ((ks.zip vs).map fun (k, v) => " " ++ obsPVal S k ++ " " ++ obsPVal S v)
